@@ -281,18 +281,6 @@ fn inflate_bytes(data: &[u8]) -> Result<Vec<u8>> {
 }
 
 pub fn flate_decode(data: &[u8], params: &LZWFlateParams) -> Result<Vec<u8>> {
-
-    let predictor = params.predictor as usize;
-    let n_components = params.n_components as usize;
-    let bits_per_component = params.bits_per_component as usize;
-    let columns = params.columns as usize;
-    // a row holds `columns` pixels of `n_components` samples of `bits_per_component` bits,
-    // padded to a whole byte; PNG filters work on bytes at the distance of one (rounded-up) pixel
-    let bits_per_pixel = n_components * bits_per_component;
-    let bytes_per_pixel = (bits_per_pixel + 7) / 8;
-    let stride = (columns * bits_per_pixel + 7) / 8;
-
-
     // First flate decode
     let decoded = {
         if let Ok(data) = inflate_bytes_zlib(data) {
@@ -304,7 +292,23 @@ pub fn flate_decode(data: &[u8], params: &LZWFlateParams) -> Result<Vec<u8>> {
             bail!("can't inflate");
         }
     };
-    // Then unfilter (PNG)
+    // Then undo the predictor
+    unpredict(decoded, params)
+}
+
+/// Undo the prediction described by `params` (shared by FlateDecode and LZWDecode).
+fn unpredict(decoded: Vec<u8>, params: &LZWFlateParams) -> Result<Vec<u8>> {
+    let predictor = params.predictor as usize;
+    let n_components = params.n_components as usize;
+    let bits_per_component = params.bits_per_component as usize;
+    let columns = params.columns as usize;
+    // a row holds `columns` pixels of `n_components` samples of `bits_per_component` bits,
+    // padded to a whole byte; PNG filters work on bytes at the distance of one (rounded-up) pixel
+    let bits_per_pixel = n_components * bits_per_component;
+    let bytes_per_pixel = (bits_per_pixel + 7) / 8;
+    let stride = (columns * bits_per_pixel + 7) / 8;
+
+    // unfilter (PNG)
     // For this, take the old out as input, and write output to out
 
     if predictor >= 10 {
@@ -372,7 +376,7 @@ pub fn lzw_decode(data: &[u8], params: &LZWFlateParams) -> Result<Vec<u8>> {
     decoder
         .into_stream(&mut out)
         .decode_all(data).status?;
-    Ok(out)
+    unpredict(out, params)
 }
 fn lzw_encode(data: &[u8], params: &LZWFlateParams) -> Result<Vec<u8>> {
     use weezl::{BitOrder, encode::Encoder};
